@@ -13,6 +13,11 @@ import (
 // block (second.LastCommit, block.LastCommit) and may be nil or contain only nil precommits.
 func nilCommitRule(c *Ctx, id string) {
 	rule := c.R.Rule(id, "peer-nullable commit: VerifyCommit tests commit != nil before its first dereference; Commit.Height/Round do not dereference FirstPrecommit()'s result without a nil test (it is nil when every precommit is nil); Commit.ValidateBasic likewise", 4)
+	nilCommitRuleInto(c, rule)
+}
+
+// nilCommitRuleInto adds the nil-commit obligations to an existing rule.
+func nilCommitRuleInto(c *Ctx, rule string) {
 	if f := c.Anchor(rule, valsT+".VerifyCommit"); f != nil {
 		ok := true
 		n := 0
